@@ -29,13 +29,14 @@ import (
 )
 
 type Case struct {
-	Atom      string    `json:"atom"`      // failing operation
-	Form      string    `json:"form"`      // statement form holding the failing expression
-	Placement string    `json:"placement"` // where that statement lives
-	Depth     int       `json:"depth"`     // number of active calls between main and the failing function
-	CallForm  string    `json:"call_form"` // statement form of the calls
-	Sentinel  string    `json:"sentinel,omitempty"`
-	Host      *hostCase `json:"host,omitempty"`
+	Atom      string     `json:"atom"`      // failing operation
+	Form      string     `json:"form"`      // statement form holding the failing expression
+	Placement string     `json:"placement"` // where that statement lives
+	Depth     int        `json:"depth"`     // number of active calls between main and the failing function
+	CallForm  string     `json:"call_form"` // statement form of the calls
+	Sentinel  string     `json:"sentinel,omitempty"`
+	Host      *hostCase  `json:"host,omitempty"`
+	Alloc     *allocCase `json:"alloc,omitempty"`
 }
 
 type fail struct{ sig, what string }
@@ -628,7 +629,11 @@ func main() {
 			_ = report.Recase(raw, &c)
 			var fails []fail
 			var obs string
-			if c.Host != nil {
+			if c.Alloc != nil {
+				fails, obs = runAllocCase(*c.Alloc)
+				src, _ := allocProgram(*c.Alloc)
+				fmt.Printf("allocation-limit position case %+v\n%s", *c.Alloc, src)
+			} else if c.Host != nil {
 				fails, obs = runHostCase(*c.Host)
 				fmt.Printf("host error case %+v\n", *c.Host)
 			} else if c.Sentinel != "" {
@@ -716,6 +721,18 @@ func main() {
 			r.Violation(f.sig, f.what, Case{Host: &hc})
 		}
 	}
+	acs := allocCases()
+	for _, ac := range acs {
+		ac := ac
+		fails, obs := runAllocCase(ac)
+		atomic.AddInt64(&applicable, 1)
+		atomic.AddInt64(&validated, 1)
+		r.Outcome(obs)
+		for _, f := range fails {
+			r.Violation(f.sig, f.what, Case{Alloc: &ac})
+		}
+	}
+	r.Set("alloc_limit_position_cases", len(acs))
 	r.Set("host_error_grid", map[string]interface{}{"kinds": hostErrKinds(), "sites": len(hostSites), "cases": len(hcs)})
 	r.Set("atoms", allAtoms)
 	r.Set("forms", forms)
